@@ -11,7 +11,7 @@ def _run_shard(module: str, events: list[dict], idx: int, tmp: str, timeout: int
     with open(path, 'w') as f:
         json.dump(events, f)
     lib = os.pathsep.join([SPEC, os.path.join(SPEC, 'mc'), os.path.join(SPEC, 'trace')])
-    cmd = ['java', '-XX:+UseParallelGC', '-Xss64m', '-Xmx2g', f'-DTLA-Library={lib}', '-cp', f'{JAR}:{DEPS}', 'tlc2.TLC', '-workers', '1',
+    cmd = ['java', '-XX:+UseParallelGC', '-Xss64m', '-Xmx2g', f'-Djava.io.tmpdir={tmp}', f'-DTLA-Library={lib}', '-cp', f'{JAR}:{DEPS}', 'tlc2.TLC', '-workers', '1',
            '-metadir', os.path.join(tmp, f'meta_{idx}'), '-noGenerateSpecTE', '-config', 'Trace.cfg', module]
     env = dict(os.environ, TRACE_FILE=path)
     env.pop('JAVA_TOOL_OPTIONS', None)
